@@ -221,7 +221,7 @@ def bounded(tier, seed):
             I = interp.Interpreter(True, False)
             mp = values.ValueList()
             mp.addItem(values.ValueString(d))
-            I.environment.put("checkerlang_module_path", mp)
+            I.base_environment.put("checkerlang_module_path", mp)      # where run.py / repl.py put the -m path
             return I
 
         def run(I, cmd):
